@@ -65,6 +65,8 @@ fn send_ping(fd: BorrowedFd<'_>, count: u64) -> std::io::Result<()> {
     assert!(count > 0);
     #[cfg(feature = "verif")]
     crate::verif::point("ping.write");
+    #[cfg(feature = "verif")]
+    let _after = crate::verif::PointAfter("ping.written");
     match write(fd, &count.to_ne_bytes()) {
         // The write succeeded, the ping will wake up the loop.
         Ok(_) => Ok(()),
